@@ -55,6 +55,8 @@ pub enum Case {
     /// one model state of one message type
     State { message: String, value: Val, encoding: String },
     LegacyArtifact { path: String },
+    /// the SDK's byte-returning entry points (what the Python binding receives): "mps" | "qplib"
+    BytesEntryPoint { format: String },
     /// an OCI archive written by another conforming implementation (published media types)
     ForeignArchive {
         kind: u8,
@@ -808,6 +810,45 @@ pub fn check_case(l: &mut Local, case: &Case) {
                 l.violation(&format!("legacy-sample-set/{}", v.signature), || json!(case), v.detail);
             }
         }
+        Case::BytesEntryPoint { format } => {
+            l.evaluations += 1;
+            l.transitions += 2;
+            l.nontrivial += 1;
+            l.outcome(&("bytes-entry-point", format));
+            let dir = Scratch::new(&format!("c07-bytes-{format}"));
+            let r = sdk(|| -> Result<(v1::Instance, Vec<u8>), String> {
+                if format == "mps" {
+                    use std::io::Write;
+                    let text = "NAME T\nROWS\n N OBJ\n L R1\nCOLUMNS\n X OBJ 1 R1 2\n Y OBJ -1 R1 1\nRHS\n RHS R1 4\nBOUNDS\n UP BND X 3\nENDATA\n";
+                    let p = dir.path("t.mps.gz");
+                    let mut e = flate2::write::GzEncoder::new(Vec::new(), flate2::Compression::default());
+                    e.write_all(text.as_bytes()).map_err(|e| e.to_string())?;
+                    std::fs::write(&p, e.finish().map_err(|e| e.to_string())?).map_err(|e| e.to_string())?;
+                    Ok((ommx::mps::load_file(&p).map_err(|e| format!("{e}"))?, ommx::mps::load_file_bytes(&p).map_err(|e| format!("{e}"))?))
+                } else {
+                    let text = "T\nLCL\nMinimize\n2\n1\n0.0\n1\n1 1.5\n0.0\n2\n1 1 1.0\n1 2 2.0\n1e20\n-1e20\n0\n4.0\n0\n0.0\n0\n3.0\n0\n0.0\n0\n0.0\n0\n0.0\n0\n0\n0\n";
+                    let p = dir.path("t.qplib");
+                    std::fs::write(&p, text).map_err(|e| e.to_string())?;
+                    Ok((ommx::qplib::load_file(&p).map_err(|e| format!("{e:#}"))?, ommx::qplib::load_file_bytes(&p).map_err(|e| format!("{e:#}"))?))
+                }
+            });
+            match r {
+                Err(p) => l.violation("bytes-entry-point/panic", || json!(case), p),
+                Ok(Err(e)) => l.violation("bytes-entry-point/error", || json!(case), format!("{format}: {e}")),
+                Ok(Ok((inst, bytes))) => match v1::Instance::decode(bytes.as_slice()) {
+                    Err(e) => l.violation("bytes-entry-point/not-decodable", || json!(case), format!("{format}::load_file_bytes returned {} bytes that do not decode as ommx.v1.Instance: {e}", bytes.len())),
+                    Ok(m) => {
+                        let same = m.decision_variables.len() == inst.decision_variables.len()
+                            && m.constraints.len() == inst.constraints.len()
+                            && m.sense == inst.sense
+                            && crate::refmodel::msg::poly_of_opt_function(&m.objective).ok().map(|p| p.0.len()) == crate::refmodel::msg::poly_of_opt_function(&inst.objective).ok().map(|p| p.0.len());
+                        if !same || inst.decision_variables.len() != 2 || inst.constraints.len() != 1 {
+                            l.violation("bytes-entry-point/content", || json!(case), format!("{format}: load_file_bytes decodes to {} variables / {} constraints, load_file gives {} / {} (the file has 2 / 1)", m.decision_variables.len(), m.constraints.len(), inst.decision_variables.len(), inst.constraints.len()));
+                        }
+                    }
+                },
+            }
+        }
         Case::LegacyArtifact { path } => {
             l.evaluations += 1;
             l.transitions += 1;
@@ -956,6 +997,10 @@ pub fn run(ctx: &Ctx) -> Finish {
                     check_case(l, &Case::ForeignArchive { kind, annotated, variant });
                 }
             }
+        }
+        for format in ["mps", "qplib"] {
+            l.states += 1;
+            check_case(l, &Case::BytesEntryPoint { format: format.to_string() });
         }
         // two-layer archives: every ordered pair of (kind, variant), the second layer annotated
         for ka in 0u8..4 {
